@@ -105,7 +105,7 @@ class MapFiller(Visitor):
 
         """
 
-        if reg.is_fundamental:
+        if reg.fundamental:
             return reg
 
         raise JaqalError(
